@@ -45,6 +45,7 @@ type FuncContract struct {
 	AtCall       map[string][]Clause // callee short name -> assertions checked at every call to it
 	Protocols    []ProtoUse
 	AtAtomic     map[int][]GhostUpd // ordinal of the atomic operation on a protected field -> ghost updates
+	RangeInv     map[int][]Clause   // ordinal of the Range(func...) call -> invariants of the iteration
 	File         string
 	Line         int
 	Used         bool
@@ -128,17 +129,18 @@ type Contracts struct {
 	SpecFuncs map[string]*SpecFunc
 	Ghosts    map[string]*GhostHeap
 	Lemmas    []*Lemma
+	Guards    map[string]*Guard // pkgpath::Struct.field -> guarding lock field
 	Files     []string
 	Scan      map[string]int // mechanical scan: counts of assume/trusted/uninterpreted/pure/modifies *
 }
 
 func newContracts() *Contracts {
-	return &Contracts{Protocols: map[string]*Protocol{}, Funcs: map[string]*FuncContract{}, SpecFuncs: map[string]*SpecFunc{}, Ghosts: map[string]*GhostHeap{}, Scan: map[string]int{}}
+	return &Contracts{Protocols: map[string]*Protocol{}, Funcs: map[string]*FuncContract{}, SpecFuncs: map[string]*SpecFunc{}, Ghosts: map[string]*GhostHeap{}, Scan: map[string]int{}, Guards: map[string]*Guard{}}
 }
 
 var clauseKW = map[string]bool{"func": true, "spec": true, "lemma": true, "ghostheap": true, "props": true, "trusted": true, "inline": true,
 	"pure": true, "may_panic": true, "requires": true, "ensures": true, "ensures_ghost": true, "assume": true, "modifies": true, "loop": true, "functype": true,
-	"iface": true, "input_path": true, "no_safety": true, "package": true, "mode": true, "sweep": true, "at": true, "protocol": true}
+	"iface": true, "input_path": true, "no_safety": true, "package": true, "mode": true, "sweep": true, "at": true, "protocol": true, "guarded": true}
 
 var labelRe = regexp.MustCompile(`^\[([A-Za-z0-9_.$#-]+)\]\s*`)
 
@@ -297,6 +299,15 @@ func (cs *Contracts) loadContractFile(path string, pkgPath string) error {
 			}
 			cs.Sweeps = append(cs.Sweeps, sw)
 			cur = nil
+		case "guarded":
+			// guarded Struct.field by lockfield
+			fs := strings.Fields(rest)
+			if len(fs) != 3 || fs[1] != "by" || !strings.Contains(fs[0], ".") {
+				return fail("guarded Struct.field by lockfield")
+			}
+			sf := strings.SplitN(fs[0], ".", 2)
+			cs.Guards[pkgPath+"::"+fs[0]] = &Guard{PkgPath: pkgPath, Struct: sf[0], Field: sf[1], Lock: fs[2], File: path, Line: rc.line}
+			cur = nil
 		case "spec":
 			sf, err := parseSpecFunc(rest)
 			if err != nil {
@@ -448,6 +459,23 @@ func (cs *Contracts) loadContractFile(path string, pkgPath string) error {
 						cur.AtAtomic = map[int][]GhostUpd{}
 					}
 					cur.AtAtomic[k] = append(cur.AtAtomic[k], GhostUpd{Ghost: fs[3], Expr: e, Src: src})
+					break
+				}
+				if len(fs) >= 4 && fs[0] == "range" && fs[2] == "invariant" {
+					// at range K invariant [label] expr   (K-th m.Range(func...) call of the function)
+					k, err := strconv.Atoi(fs[1])
+					if err != nil {
+						return fail("at range K invariant [label] expr")
+					}
+					idx := strings.Index(rest, " invariant ")
+					c, err := mkClause("invariant", strings.TrimSpace(rest[idx+len(" invariant "):]), k)
+					if err != nil {
+						return err
+					}
+					if cur.RangeInv == nil {
+						cur.RangeInv = map[int][]Clause{}
+					}
+					cur.RangeInv[k] = append(cur.RangeInv[k], c)
 					break
 				}
 				if len(fs) < 4 || fs[0] != "call" || fs[2] != "assert" {
